@@ -57,6 +57,8 @@ def observe(case, s, w):
         op = o["op"]
         if op[0] == "expr":
             obs["construct"] = o
+        elif op[0] == "complete" and op[2] == "running":
+            continue  # marks the input as being worked on; it has not finished
         elif op[0] == "complete":
             idx = int(op[1][1:])
             noop = o["result"] == ["ok", "noop"] or (o["result"][0] == "ok" and o["result"][1] is False)
